@@ -28,6 +28,35 @@ type Env struct {
 	ghostScope map[string]*Term
 	relyOld    *State // in rely conditions old() means the state before the interference step
 	localsSt   *State // state whose local variables names denote (old() keeps the current locals)
+	cur        *State // the current state when st has been switched to an earlier one (old, atlock)
+}
+
+// heapVal: a slice or string header read from the heap by a contract satisfies its
+// type invariant (0 <= len <= cap, offset >= 0): assumed on the current path.
+func (x *Exec) heapVal(env *Env, v Val) Val {
+	if v.T == nil || v.A != nil {
+		return v
+	}
+	switch v.T.Underlying().(type) {
+	case *types.Slice:
+	case *types.Basic:
+		if !isString(v.T) {
+			return v
+		}
+	default:
+		return v
+	}
+	for _, l := range v.L {
+		if hasFreeBinder(l) {
+			return v
+		}
+	}
+	st := env.cur
+	if st == nil {
+		st = env.st
+	}
+	st.assume(x.typeInv(v, st))
+	return v
 }
 
 func (e *Env) with(vars map[string]Val) *Env {
@@ -404,7 +433,7 @@ func (x *Exec) evalSel(env *Env, e *SExpr) Val {
 		}
 	}
 	if a := x.evalAddr(env, e); a != nil {
-		return x.loadAddr(env.st, a)
+		return x.heapVal(env, x.loadAddr(env.st, a))
 	}
 	base := x.eval(env, e.X)
 	if base.T == nil {
@@ -412,7 +441,7 @@ func (x *Exec) evalSel(env *Env, e *SExpr) Val {
 	}
 	if pt, ok := base.T.Underlying().(*types.Pointer); ok && base.A == nil {
 		if a := x.fieldOfPtr(base.L[0], pt.Elem(), e.Name); a != nil {
-			return x.loadAddr(env.st, a)
+			return x.heapVal(env, x.loadAddr(env.st, a))
 		}
 	}
 	st, ok := base.T.Underlying().(*types.Struct)
@@ -741,6 +770,9 @@ func (x *Exec) evalCall(env *Env, e *SExpr) Val {
 	switch name {
 	case "old":
 		n := *env
+		if n.cur == nil {
+			n.cur = env.st
+		}
 		n.st = env.old
 		if env.relyOld != nil {
 			// names keep their current meaning, only the heap is the earlier one
@@ -814,6 +846,31 @@ func (x *Exec) evalCall(env *Env, e *SExpr) Val {
 			return mathVal(t)
 		}
 		x.evalFail("rangepos(): no range-over-string iterator")
+	case "seqfn":
+		// seqfn(x, "f"): the mathematical sequence k -> x.f(k) of an abstract indexed
+		// function of x (a reader's stream S, a writer's sink W), so that functions over
+		// sequences can be applied to it.  Defined by: forall k :: seqfn(x,"f")[k] == x.f(k).
+		x.E.nfresh++
+		kv := Var(fmt.Sprintf("k!q%d", x.E.nfresh), IntS)
+		call := &SExpr{K: "call", X: &SExpr{K: "sel", X: e.Args[0], Name: e.Args[1].Str}, Args: []*SExpr{{K: "ident", Name: "seqfn!k"}}}
+		t := x.eval(env.with(map[string]Val{"seqfn!k": mathVal(kv)}), call).Term()
+		if t.Op != "app" || len(t.Args) == 0 || t.Args[len(t.Args)-1] != kv {
+			x.evalFail("seqfn: %s is not an abstract indexed function", e.Args[1].Str)
+		}
+		arr := App("seq."+t.Name, ArrS(IntS, t.S), t.Args[:len(t.Args)-1]...)
+		key := arr.String()
+		cst := env.cur
+		if cst == nil {
+			cst = env.st
+		}
+		if !hasFreeBinder(arr) && !cst.defined[key] {
+			if cst.defined == nil {
+				cst.defined = map[string]bool{}
+			}
+			cst.defined[key] = true
+			cst.assume(Forall([]*Term{kv}, Eq(Select(arr, kv), t)))
+		}
+		return mathVal(arr)
 	case "store":
 		// store(seq, i, v): the mathematical sequence seq updated at i
 		return mathVal(Store(arg(0).L[0], arg(1).Term(), arg(2).Term()))
